@@ -580,8 +580,75 @@ fn certificate_signature_case(t: &mut Tape, rec: &mut Rec, kinds: &[Kind]) -> Ca
     Ok(())
 }
 
+
+// ---------------------------------------------------------------------------------------------
+// many fresh signatures per algorithm: value-dependent encodings (short r / s, leading zero octets)
+// ---------------------------------------------------------------------------------------------
+
+const MANY_KINDS: [Kind; 8] = [Kind::P256V4, Kind::P384V4, Kind::P521V4, Kind::K256V4, Kind::DsaV4, Kind::RsaV4, Kind::Ed448V6, Kind::EdLegacyV4];
+
+fn many_signatures_case(t: &mut Tape, rec: &mut Rec, per_kind: u64) -> CaseResult {
+    let idx = t.u64();
+    let kind = MANY_KINDS[(idx / per_kind) as usize % MANY_KINDS.len()];
+    let i = idx % per_kind;
+    let z = zoo::get(kind);
+    let key = &z.secret.primary_key;
+    let hash = kind.hashes()[(i % kind.hashes().len() as u64) as usize];
+    let text = i % 2 == 1;
+    let payload = format!("payload number {i} for {kind:?}\n").into_bytes();
+    let mut rng = ChaCha8Rng::seed_from_u64(idx);
+    let d = if text { DetachedSignature::sign_text_data(&mut rng, key, &Password::empty(), hash, &payload[..]) } else { DetachedSignature::sign_binary_data(&mut rng, key, &Password::empty(), hash, &payload[..]) };
+    let d = match d {
+        Ok(d) => d,
+        Err(e) => {
+            rec.soft_fail("C06:many:sign-error", format!("{kind:?} {hash:?}: {e}"));
+            return Ok(());
+        }
+    };
+    // shape of the signature value: is r or s encoded in fewer octets than the field size?
+    let field = match kind {
+        Kind::P256V4 | Kind::K256V4 | Kind::EdLegacyV4 | Kind::DsaV4 => Some(32usize),
+        Kind::P384V4 => Some(48),
+        Kind::P521V4 => Some(66),
+        _ => None,
+    };
+    let body = d.signature.to_bytes().unwrap_or_default();
+    let short = match (field, crate::refimpl::sigparse::parse_sig(&body)) {
+        (Some(f), Some(sf)) => {
+            let v = &sf.value;
+            let mut p = 0;
+            let mut any = false;
+            while p + 2 <= v.len() {
+                let octets = (u16::from_be_bytes([v[p], v[p + 1]]) as usize).div_ceil(8);
+                any |= octets < f;
+                p += 2 + octets;
+            }
+            Some(any)
+        }
+        _ => None,
+    };
+    rec.label(format!("many:{kind:?}"));
+    if short == Some(true) {
+        rec.label(format!("many:{kind:?}:r-or-s-shorter-than-the-field"));
+    }
+    rec.nontrivial(idx);
+    rec.describe(|| format!("{kind:?} {hash:?} {} signature #{i}", if text { "text" } else { "binary" }));
+    if let Err(e) = d.verify(&z.public.primary_key, &payload[..]) {
+        rec.soft_fail(format!("C06:many:DetachedSignature::verify-rejects:{kind:?}"), format!("signature #{i} ({hash:?}): {e}; signature packet {}", hex::encode(&body)));
+    }
+    match DetachedSignature::from_bytes(&d.to_bytes().unwrap_or_default()[..]) {
+        Ok(d2) => {
+            if let Err(e) = d2.verify(&z.public, &payload[..]) {
+                rec.soft_fail(format!("C06:many:re-parsed-signature-rejected:{kind:?}"), format!("signature #{i} ({hash:?}): {e}"));
+            }
+        }
+        Err(e) => rec.soft_fail("C06:many:own-serialization-rejected", format!("{kind:?} #{i}: {e}")),
+    }
+    Ok(())
+}
+
 pub fn run(ctx: &Ctx) {
-    ctx.set_rule("payloads: every string over {CR,LF,x} of length 0..=L (exhaustive) and random strings over {CR,LF,TAB,SP,'-',a,é,€,NUL} incl. long ones with CR/LF on the 512/1024/8192 buffer edges; each signed through every data-signing interface (detached binary/text, SignatureConfig::sign, hasher+io::Write chunks, message builder with 1..3 signers, cleartext sign/new/new_many) and checked through every applicable verify interface (Signature::verify via PublicKey and SignedPublicKey, DetachedSignature::verify, after binary and armored re-parse, Message::verify on a harness-built prefixed message, Message::verify/verify_nested on builder output, extracted one-pass signature as detached, cleartext verify/verify_many, after armor round trip); certificate group: UserId/UserAttribute::sign and sign_third_party (ids of 0..8384 bytes, images across the subpacket length classes), PublicSubkey/SecretSubkey::sign with and without SecretSubkey::sign_primary_key_binding back signature and ADSK flag, SignatureConfig::sign_key for direct-key and key-revocation signatures, each checked through Signature::verify_certification / verify_third_party_certification / verify_subkey_binding / verify_primary_key_binding / verify_key(_third_party), SignedUser(/Attribute)::verify_bindings / verify_third_party, and SignedPublicKey/SignedSecretKey::verify_bindings after export and import; non-trivial = payload contains CR/LF, is empty, or has a trailing blank; distinct = (payload, key, type)");
+    ctx.set_rule("payloads: every string over {CR,LF,x} of length 0..=L (exhaustive) and random strings over {CR,LF,TAB,SP,'-',a,é,€,NUL} incl. long ones with CR/LF on the 512/1024/8192 buffer edges; each signed through every data-signing interface (detached binary/text, SignatureConfig::sign, hasher+io::Write chunks, message builder with 1..3 signers, cleartext sign/new/new_many) and checked through every applicable verify interface (Signature::verify via PublicKey and SignedPublicKey, DetachedSignature::verify, after binary and armored re-parse, Message::verify on a harness-built prefixed message, Message::verify/verify_nested on builder output, extracted one-pass signature as detached, cleartext verify/verify_many, after armor round trip); many-signatures group: 1200 (thorough 20000) fresh detached signatures per algorithm for ECDSA P-256/P-384/P-521/secp256k1, DSA, RSA, Ed448, EdDSA-legacy so that short r/s and leading-zero encodings occur (counted per run), verified directly and after re-parse; certificate group: UserId/UserAttribute::sign and sign_third_party (ids of 0..8384 bytes, images across the subpacket length classes), PublicSubkey/SecretSubkey::sign with and without SecretSubkey::sign_primary_key_binding back signature and ADSK flag, SignatureConfig::sign_key for direct-key and key-revocation signatures, each checked through Signature::verify_certification / verify_third_party_certification / verify_subkey_binding / verify_primary_key_binding / verify_key(_third_party), SignedUser(/Attribute)::verify_bindings / verify_third_party, and SignedPublicKey/SignedSecretKey::verify_bindings after export and import; non-trivial = payload contains CR/LF, is empty, or has a trailing blank; distinct = (payload, key, type)");
     ctx.assume("prefixed signed messages are assembled by the harness' own packet framer (signature packet followed by a literal packet)");
     let cheap = zoo::CHEAP_SIGNERS;
     zoo::warm(cheap);
@@ -637,6 +704,9 @@ pub fn run(ctx: &Ctx) {
         let text = random_text(t, 24);
         cleartext_case(t, rec, text, all)
     });
+    zoo::warm(&MANY_KINDS);
+    let per_kind = ctx.tier.pick(1200u64, 20_000);
+    ctx.group("many-signatures-per-algorithm", Source::Indexed { count: per_kind * MANY_KINDS.len() as u64 }, |t, rec| many_signatures_case(t, rec, per_kind));
     let cert_kinds = [Kind::Ed25519V4, Kind::Ed25519V6, Kind::EdLegacyV4, Kind::P256V4, Kind::RsaV4];
     zoo::warm(&[Kind::Ed25519V4B, Kind::Ed25519V6B, Kind::EdLegacyV4B, Kind::P256V4B, Kind::RsaV4B, Kind::RsaV4]);
     let n = ctx.tier.pick(3000u64, 60_000);
